@@ -8,11 +8,13 @@ package c09
 import (
 	"bytes"
 	"context"
+	"encoding/base64"
 	"encoding/json"
 	"fmt"
 	"os"
 	"path/filepath"
 	"runtime"
+	"strings"
 	"sync"
 	"sync/atomic"
 	"testing"
@@ -200,8 +202,9 @@ func TestC09(t *testing.T) {
 			concurrent(t, r, dir, rep)
 		}
 		staleNotModified(t, r, dir)
+		handWrittenFiles(r, dir)
 	}
-	r.Require("post_quiescence_conditional_gets", "concurrent_conditional_gets", "histories", "db_notchanged", "db_value", "http_notchanged", "http_value", "file_notchanged", "file_value", "denied_checks",
+	r.Require("hand_written_file_entries", "post_quiescence_conditional_gets", "concurrent_conditional_gets", "histories", "db_notchanged", "db_value", "http_notchanged", "http_value", "file_notchanged", "file_value", "denied_checks",
 		"shape_reactivated_older_version", "shape_v_existing_inactive", "shape_v_names_deleted_version", "shape_v_beyond_latest")
 	r.Rule("seeded histories of 15-30 put/activate/delete-version/delete steps over 2 names; after every step conditional gets with V in {0, 1, active, every version number up to latest (existing and deleted), latest+1, 2^32-1} on both names and an absent one, through db.GetConditional, HTTP handler + setec.Client, and FileClient on a file generated from the model; plus a caller without get permission. Distinct = (front end, class of V, model outcome)")
 }
@@ -351,4 +354,100 @@ func activeOf(m *refmodel.Model, n string) uint32 {
 		return s.Active
 	}
 	return 0
+}
+
+// handWrittenFiles: secrets files as a person writes them (TextValue or base64 Value, version present,
+// zero or missing, entries without a value). Whichever entries the loader accepts, the conditional get is
+// tied to the plain get: V = 0 is the plain get, and for V != 0 the answer is "not changed" exactly when V is
+// the version the plain get reports.
+func handWrittenFiles(r *evid.Run, dir string) {
+	rng := r.Rand(808)
+	ctx := context.Background()
+	for f := 0; f < r.N(300, 6000); f++ {
+		n := 1 + rng.IntN(5)
+		var parts []string
+		type ent struct {
+			name    string
+			hasVal  bool
+			version uint32
+			val     string
+		}
+		var ents []ent
+		for i := 0; i < n; i++ {
+			e := ent{name: fmt.Sprintf("hand/%d", i), val: fmt.Sprintf("value-%d-%d", f, i)}
+			var fields []string
+			valKind := rng.IntN(4)
+			switch valKind {
+			case 0:
+				fields = append(fields, fmt.Sprintf(`"TextValue":%q`, e.val))
+				e.hasVal = true
+			case 1:
+				fields = append(fields, fmt.Sprintf(`"Value":%q`, base64.StdEncoding.EncodeToString([]byte(e.val))))
+				e.hasVal = true
+			case 2:
+				fields = append(fields, `"TextValue":""`)
+			}
+			verKind := rng.IntN(5)
+			switch verKind {
+			case 0: // no version at all
+			case 1:
+				fields = append(fields, `"Version":0`)
+			default:
+				e.version = []uint32{1, 2, 5, 77, 4294967295}[rng.IntN(5)]
+				fields = append(fields, fmt.Sprintf(`"Version":%d`, e.version))
+			}
+			rng.Shuffle(len(fields), func(a, b int) { fields[a], fields[b] = fields[b], fields[a] })
+			parts = append(parts, fmt.Sprintf(`%q:{"secret":{%s}}`, e.name, strings.Join(fields, ",")))
+			ents = append(ents, e)
+			r.Distinct(fmt.Sprintf("hand-written entry value-kind=%d version-kind=%d", valKind, min(verKind, 2)))
+		}
+		doc := "{" + strings.Join(parts, ",") + "}"
+		fp := filepath.Join(dir, "hand.json")
+		os.WriteFile(fp, []byte(doc), 0o600)
+		fc, err := setec.NewFileClient(fp)
+		if err != nil {
+			r.Violation("fileclient-rejects-document", -1, fmt.Sprintf("hand-written file %s: %v", doc, err), nil)
+			return
+		}
+		for _, e := range append(ents, ent{name: "hand/absent"}) {
+			r.Eval(1)
+			r.Count("hand_written_file_entries", 1)
+			g, gerr := fc.Get(ctx, e.name)
+			gc := realdb.Classify(gerr)
+			if e.hasVal && e.version > 0 {
+				if gc != refmodel.OK || g == nil || string(g.Value) != e.val || uint32(g.Version) != e.version {
+					r.Violation("file-well-formed-entry-not-served", -1, fmt.Sprintf("file %s: get %q gave %v (err %v), want v%d %q", doc, e.name, g, gerr, e.version, e.val), nil)
+					return
+				}
+			}
+			if gc != refmodel.OK && gc != refmodel.NotFound {
+				r.Violation("file-conditional-get-wrong", -1, fmt.Sprintf("file %s: get %q: %v", doc, e.name, gerr), nil)
+				return
+			}
+			vs := []uint32{0, 1, 2, 5, 77, 4294967295}
+			if g != nil {
+				vs = append(vs, uint32(g.Version))
+			}
+			for _, v := range vs {
+				c, cerr := fc.GetIfChanged(ctx, e.name, api.SecretVersion(v))
+				cc := realdb.Classify(cerr)
+				want := gc
+				if gc == refmodel.OK && v != 0 && v == uint32(g.Version) {
+					want = refmodel.NotChanged
+				}
+				ok := cc == want
+				if ok && want == refmodel.OK {
+					ok = c != nil && c.Version == g.Version && bytes.Equal(c.Value, g.Value)
+				}
+				if !ok {
+					key := "file-conditional-get-wrong"
+					if v == 0 {
+						key = "file-v0-is-not-the-plain-get"
+					}
+					r.Violation(key, -1, fmt.Sprintf("file %s: get %q gives %s %v, but get-if-changed with V=%d gives %s %v (err %v); want %s", doc, e.name, gc, g, v, cc, c, cerr, want), nil)
+					return
+				}
+			}
+		}
+	}
 }
